@@ -202,15 +202,68 @@ Lemma reg_eta r : mkReg (rtp r) (ridx r) = r.
 Proof. now destruct r. Qed.
 
 (* ================================================================ round trips *)
-Section RoundTrips.
-  Variables (a b c : reg) (f op n l i : Z).
-  Hypothesis (Ha : reg_ok a) (Hb : reg_ok b) (Hc : reg_ok c) (Hf : flag_ok f).
+Ltac fin :=
+  rewrite ?Z.shiftr_lor; rewrite ?Z.land_lor_distr_l; repeat ext_step;
+  rewrite ?Z.lor_0_r, ?Z.lor_0_l, ?Z.shiftl_0_r; rewrite ?reg_eta; try reflexivity.
+Ltac raw v := replace v with (Z.shiftl v 0) by apply Z.shiftl_0_r.
+Ltac start0 := intros; repeat match goal with w := _ |- _ => subst w end; unfold flag_ok in *.
+Ltac start1 := nf; plain; unreg; repeat split.
+Ltac start := start0; start1.
 
-  Lemma type1_fields : 0 <= op < 2^4 ->
-    let w := mkType1 op a b c in
-    HasType1 w = true /\ GetX w = op /\ GetA w = a /\ GetB w = b /\ GetC w = c.
-  Proof.
-    intros Hop w. subst w. with_consts idtac. nf. plain. Time unreg. repeat split.
-    - Time rewrite !Z.shiftr_lor. Time rewrite !Z.land_lor_distr_l. Show. Time (repeat ext_step). Show.
-  Abort.
-End RoundTrips.
+(* Type1:  1XXXXabc AAAAAAAA BBBBBBBB CCCCCCCC *)
+Lemma type1_fields a b c op : reg_ok a -> reg_ok b -> reg_ok c -> 0 <= op < 2^4 ->
+  let w := mkType1 op a b c in
+  HasType1 w = true /\ GetX w = op /\ GetA w = a /\ GetB w = b /\ GetC w = c.
+Proof. start; fin. Qed.
+
+(* Type2:  0111Fabc AAAAAAAA BBBBBBBB CCCCCCCC *)
+Lemma type2_fields f a b c : flag_ok f -> reg_ok a -> reg_ok b -> reg_ok c ->
+  let w := mkType2 f a b c in
+  HasType1 w = false /\ TypePfx w = Type2Pfx /\ GetF w = (f =? 1) /\ GetA w = a /\ GetB w = b /\ GetC w = c.
+Proof. start; fin. Qed.
+
+(* Type3:  0110FaYY AAAAAAAA NNNNNNNN NNNNNNNN *)
+Lemma type3_fields f op a n : flag_ok f -> 0 <= op < 2^2 -> reg_ok a -> 0 <= n < 2^16 ->
+  let w := mkType3 f op a n in
+  HasType1 w = false /\ TypePfx w = Type3Pfx /\ GetF w = (f =? 1) /\ GetY w = op /\ GetA w = a /\
+  GetN w = n /\ GetKIndex w = n.
+Proof. start0. unfold encodeN. raw n. start1; fin. Qed.
+
+(* Type4a: 0101Fab1 AAAAAAAA BBBBBBBB ZZZZZZZZ *)
+Lemma type4a_fields f op a b : flag_ok f -> 0 <= op < 2^8 -> reg_ok a -> reg_ok b ->
+  let w := mkType4a f op a b in
+  HasType1 w = false /\ TypePfx w = Type4Pfx /\ HasType4a w = true /\ GetF w = (f =? 1) /\
+  GetUnOp w = op /\ GetA w = a /\ GetB w = b.
+Proof. start0. unfold encodeZ. raw op. start1; fin. Qed.
+
+(* Type4b: 0101Fa00 AAAAAAAA LLLLLLLL ZZZZZZZZ *)
+Lemma type4b_fields f op a l : flag_ok f -> 0 <= op < 2^8 -> reg_ok a -> 0 <= l < 2^8 ->
+  let w := mkType4b f op a l in
+  HasType1 w = false /\ TypePfx w = Type4Pfx /\ HasType4a w = false /\ GetF w = (f =? 1) /\
+  GetUnOpK w = op /\ GetA w = a /\ GetL w = l.
+Proof. start0. unfold encodeZ. raw op. start1; fin. Show. Qed.
+
+(* Type5:  0100FaJJ AAAAAAAA DDDDDDDD DDDDDDDD, D as an unsigned 16-bit field *)
+Lemma type5_fields f op a d : flag_ok f -> 0 <= op < 2^2 -> reg_ok a -> 0 <= d < 2^16 ->
+  let w := mkType5 f op a d in
+  HasType1 w = false /\ TypePfx w = Type5Pfx /\ GetF w = (f =? 1) /\ GetJ w = op /\ GetA w = a /\
+  GetClStackOffset w = d /\ u16 w = d.
+Proof. start0. raw d. start1; try rewrite dec_u16; fin. Qed.
+
+(* Type6:  0011Fab0 AAAAAAAA BBBBBBBB MMMMMMMM *)
+Lemma type6_fields f a b i : flag_ok f -> reg_ok a -> reg_ok b -> 0 <= i < 2^8 ->
+  let w := mkType6 f a b i in
+  HasType1 w = false /\ TypePfx w = Type6Pfx /\ GetF w = (f =? 1) /\ GetA w = a /\ GetB w = b /\ GetM w = i.
+Proof. start0. unfold encodeM. raw i. start1; fin. Qed.
+
+(* Type7:  0010Fabc AAAAAAAA BBBBBBBB CCCCCCCC *)
+Lemma type7_fields f a b c : flag_ok f -> reg_ok a -> reg_ok b -> reg_ok c ->
+  let w := mkType7 f a b c in
+  HasType1 w = false /\ TypePfx w = Type7Pfx /\ GetF w = (f =? 1) /\ GetA w = a /\ GetB w = b /\ GetC w = c.
+Proof. start; fin. Qed.
+
+(* Type0:  0000Fa00 AAAAAAAA 00000000 00000000 *)
+Lemma type0_fields f a : flag_ok f -> reg_ok a ->
+  let w := mkType0 f a in
+  HasType1 w = false /\ HasType0 w = true /\ TypePfx w = Type0Pfx /\ GetF w = (f =? 1) /\ GetA w = a.
+Proof. start; fin. Qed.
